@@ -543,6 +543,21 @@ def getitem(I, o, k, node):
             return I.call_function(m, o, [k], {})
     if isinstance(o, SymDict):
         return o.getitem(I, k)
+    if isinstance(o, ClassRef) and (o.info.is_subclass_of("Enum") or o.info.is_subclass_of("enum.Enum")):
+        members = [n for n, e in o.info.class_attrs.items() if not n.startswith("_") and n not in o.info.methods]
+        if kind_of(k) != "str":
+            raise PyRaise(ExcValue("KeyError", (k,)))
+        conds = [py_eq(I, k, n) for n in members]
+        j = I.ctx.choose(conds + [neg(or_any(conds))])
+        if j == len(members):
+            raise PyRaise(ExcValue("KeyError", (k,)))
+        return EnumVal(o.info.find_class_attr(members[j])[0], members[j])
+    if isinstance(o, SObj) and o.ghost.get("closed"):
+        raise PyRaise(ExcValue("TypeError", (f"'{o.cls}' object is not subscriptable",)))
+    if isinstance(o, SObj) and o.cls == "re.Match":
+        if isinstance(k, int) and k in o.ghost["groups"]:
+            return o.ghost["groups"][k]
+        raise OutsideSubset("re.Match group")
     if o is None:
         raise PyRaise(ExcValue("TypeError", ("'NoneType' object is not subscriptable",)))
     if isinstance(o, (int, float, bool)) or (isinstance(o, Sym) and o.kind in ("int", "bool")):
@@ -849,6 +864,8 @@ def getattr_(I, o, name, node=None):
                 return I.call_function(ga, o, [name], {})
             if "BaseException" in I.E.exc_class_chain(o.cls) and name == "args":
                 return ()
+        if o.ghost.get("closed"):
+            raise PyRaise(ExcValue("AttributeError", (f"'{o.cls}' object has no attribute '{name}'",)))
         if not isinstance(o.cls, ClassInfo) and not o.lazy:
             raise OutsideSubset(f"attribute {name} of modelled external object {o.cls} (line {getattr(node, 'lineno', '?')})")
         if o.lazy:
@@ -859,6 +876,8 @@ def getattr_(I, o, name, node=None):
     if isinstance(o, ClassRef):
         if name == "__name__":
             return o.info.name
+        if name == "__dataclass_fields__":
+            return {f[0]: None for f in o.info.dataclass_fields()}
         m = o.info.find_method(name)
         if m is not None:
             if m.is_classmethod:
